@@ -7,6 +7,7 @@
 package main
 
 import (
+	"bytes"
 	"fmt"
 	"hash/fnv"
 	"sort"
@@ -156,7 +157,34 @@ type world struct {
 	subsetOK bool
 }
 
+// throughDisk writes a font and reads it back: structures built by the
+// reader (e.g. the FDSelect function of a CID-keyed font) differ from the
+// ones a program constructs.
+func throughDisk(f *sfnt.Font) *sfnt.Font {
+	w := simio.NewWriter()
+	if _, err := f.Write(w); err != nil {
+		panic("worker: fault-free write failed: " + err.Error())
+	}
+	g, err := sfnt.Read(bytes.NewReader(w.Disk))
+	if err != nil {
+		panic("worker: re-read failed: " + err.Error())
+	}
+	return g
+}
+
 func chooseWorld(t *tape.Tape) world {
+	w := chooseWorld0(t)
+	if t.Chance(1, 2) {
+		build := w.build
+		w.build = func() *sfnt.Font { return throughDisk(build()) }
+		w.name += "(written and read back)"
+		// Read adds standard ligatures / kern lookups only of supported kinds,
+		// but generated layout tables stay unsupported for Subset
+	}
+	return w
+}
+
+func chooseWorld0(t *tape.Tape) world {
 	switch t.Weighted(3, 2, 2, 3) {
 	case 0:
 		i := t.Draw(12)
